@@ -408,8 +408,10 @@ void GridWavelet::ensureInterpolationMatrix(int num_points) const{
     // the matrix is a cache shared by all const methods, (re)building it must be done by one thread at a time
     // after the lock is released the matrix is only read, until a non-const method changes the points
     std::lock_guard<std::mutex> lock(inter_matrix_lock);
+    TSG_VERIF_EVENT("wcache_lock", {0}); // emitted while holding the mutex
     TSG_VERIF_EVENT("wcache_check", {0, 0, (inter_matrix.getNumRows() != num_points) ? 0 : 1});
     if (inter_matrix.getNumRows() != num_points) buildInterpolationMatrix();
+    TSG_VERIF_EVENT("wcache_unlock", {0}); // emitted while still holding the mutex
 }
 
 void GridWavelet::buildInterpolationMatrix() const{
